@@ -132,6 +132,14 @@ def judge_pair(a, b, regime):
             elif U.Unit(p[1]) != U.Unit(b or "dimensionless") and not (eq and U.Unit(p[1]) == U.Unit(a or "dimensionless")):
                 # (data published in an equivalent unit may keep its label until it crosses the link, where it is relabelled)
                 bad.append(("prepare_units", f"{p[1]} != {b}"))
+            if v == 1.0:
+                # integer-typed data must be converted, not truncated back to integers
+                try:
+                    ri = T.to_units(U.Quantity(np.array([1500, 250], dtype=np.int64), a), b).magnitude
+                    if not (close(ri[0], ref_convert(1500, a, b)) and close(ri[1], ref_convert(250, a, b))):
+                        bad.append(("to_units_integer_data", f"[1500 250] {a} -> {b}: got {ri.tolist()}, reference {[ref_convert(1500, a, b), ref_convert(250, a, b)]}"))
+                except Exception as e:  # noqa
+                    bad.append(("to_units_integer_data", f"{type(e).__name__}"))
             pmk = q_prepare_masked(a, b, v)
             if isinstance(pmk[0], str) or not close(pmk[0], want):
                 bad.append(("prepare_value_under_fixed_mask", f"{v} {a} -> {b}: got {pmk}, reference {want}"))
